@@ -3,9 +3,9 @@
 //!
 //! usage: vharness <property> --seed <u64> --cases <n> --out <file> [--replay <file>] [extra...]
 
-mod rng;
-mod util;
-mod c06;
+pub mod rng;
+pub mod util;
+include!(concat!(env!("OUT_DIR"), "/registry.rs"));
 
 use std::collections::HashMap;
 
@@ -66,10 +66,10 @@ fn main() {
         std::process::exit(2);
     }
     let args = parse_args(&argv[2..]);
-    let code = match argv[1].as_str() {
-        "c06" => c06::run(&args),
-        other => {
-            eprintln!("unknown property {other}");
+    let code = match dispatch(argv[1].as_str(), &args) {
+        Some(code) => code,
+        None => {
+            eprintln!("unknown property {}", argv[1]);
             2
         }
     };
